@@ -903,22 +903,31 @@ class Inliner:
                     scan(k.value)
                 if isinstance(e.func, ast.Attribute):
                     scan(e.func.value)
+            elif isinstance(e, ast.List) and len(e.elts) == 1 and isinstance(e.elts[0], ast.Starred) and isinstance(e.elts[0].value, ast.Call) \
+                    and self.lookup(e.elts[0].value) is not None and _contains(self.lookup(e.elts[0].value)[0], (ast.Yield, ast.YieldFrom)):
+                found.append(e)         # [*g(..)]: the list of everything g yields
             elif isinstance(e, (ast.Tuple, ast.List)):
                 for x in e.elts:
-                    scan(x)
+                    scan(x.value if isinstance(x, ast.Starred) else x)
             elif isinstance(e, ast.Attribute):
                 scan(e.value)
         scan(s.value)
         if len(found) != 1:
             return None
         cons = found[0]
-        gcall = cons.args[0]
+        gcall = cons.args[0] if isinstance(cons, ast.Call) else cons.elts[0].value
         r = self.lookup(gcall)
         callee = r[0]
         if callee.name in stack or any(isinstance(n, ast.Return) and n.value is not None for n in ast.walk(callee)):
             return None
         self.counter += 1
         acc = f"acc_{callee.name.strip('_')}{self.counter}"
+        direct = False
+        if isinstance(s, ast.Assign) and len(s.targets) == 1 and isinstance(s.targets[0], ast.Name) and s.value is cons and (
+                isinstance(cons, ast.List) or (isinstance(cons.func, ast.Name) and cons.func.id == "list")) \
+                and not any(isinstance(n, ast.Name) and n.id == s.targets[0].id for n in ast.walk(gcall)):
+            # x = list(g(..)): x itself is the list the yields are collected in
+            acc, direct = s.targets[0].id, True
 
         class Y(ast.NodeTransformer):
             def visit_Expr(self, node):
@@ -944,9 +953,12 @@ class Inliner:
             self.lookup = old
         if body is None:
             return None
-        cons.args[0] = ast.Name(id=acc, ctx=ast.Load())
+        if isinstance(cons, ast.Call):
+            cons.args[0] = ast.Name(id=acc, ctx=ast.Load())
+        else:
+            cons.elts[0].value = ast.Name(id=acc, ctx=ast.Load())
         init = ast.copy_location(ast.Assign(targets=[ast.Name(id=acc, ctx=ast.Store())], value=ast.List(elts=[], ctx=ast.Load())), s)
-        return [ast.fix_missing_locations(init)] + body + [s]
+        return [ast.fix_missing_locations(init)] + body + ([] if direct else [s])
 
     def _comp_as_loop(self, s, d, stack):
         if not (isinstance(s, ast.Assign) and len(s.targets) == 1 and isinstance(s.value, ast.ListComp) and d > 0):
